@@ -824,6 +824,21 @@ class MBXML:
                     token_config.attributes = newattrs
                     (token_config.value, idx) = cls.read_opaque(data, idx)
                 elif token_config.length == 0:
+                    # no content, but attributes without preset value (result-code of "result" 0x37) are written
+                    # by write_part and are there to be read
+                    newattrs = []
+                    for attr_id in token_config.attributes:
+                        attr_def = doctype_configuration[
+                            MBXMLTokenType.ATTRIBUTE_TOKEN
+                        ][attr_id]
+                        if attr_def.value is None:
+                            attr_config = copy(attr_def)
+                            attr_config.token_id = attr_id
+                            (attr_config.value, idx) = cls.read_uintvar(data, idx)
+                            newattrs.append(attr_config)
+                        else:
+                            newattrs.append(attr_id)
+                    token_config.attributes = newattrs
                     token_config.value = b""
                 else:
                     (token_config.value, idx) = cls.read_opaque(data, idx)
